@@ -121,6 +121,7 @@ func aofScripts() []PSeq {
 		{ID: "s10", Mode: "aof", Sync: "always", NoGuard: true, Ops: []POp{{Conn: -1, Cmd: h("set", "k1", "a")}, {Conn: -1, Cmd: h("rename", "nosuchkey", "k2")}, {Conn: -1, Cmd: h("@rewrite")}}},
 		{ID: "s11", Mode: "aof", Sync: "always", Ops: []POp{{Conn: -1, Cmd: h("sadd", "s1", "a", "b", "c", "d", "e", "f", "g", "h")}, {Conn: -1, Cmd: h("spop", "s1", "4")}, {Conn: -1, Cmd: h("set", "k1", "a")}}},
 		{ID: "s13", Mode: "aof", Sync: "always", Ops: []POp{{Conn: -1, Cmd: h("sadd", "s1", "a", "b", "c", "d", "e", "f", "g", "h")}, {Conn: -1, Cmd: h("spop", "s1", "4")}, {Conn: -1, Cmd: h("@rewrite")}}},
+		{ID: "s14", Mode: "aof", Sync: "always", Ops: []POp{{Conn: -1, Cmd: h("lpush", "k1", "b", "a")}, {Conn: -1, Cmd: h("@rewrite")}, {Conn: -1, Cmd: h("rename", "k1", "k2")}, {Conn: -1, Cmd: h("set", "k3", "c")}}},
 		{ID: "s12", Mode: "aof", Sync: "always", Ops: []POp{{Conn: -1, Cmd: h("set", "k1", "a", "pxat", fmt.Sprint(StartMs+500))}, {Conn: -1, Cmd: h("append", "k1", "x")}, {Conn: -1, Adv: 1000, Cmd: h("set", "k2", "b")}}},
 		{ID: "s6", Mode: "aof", Sync: "always", Ops: []POp{{Conn: -1, Cmd: h("sadd", "s1", "a", "b")}, {Conn: -1, Cmd: h("hset", "h1", "f", "1")}, {Conn: -1, Cmd: h("rpush", "l1", "x")}, {Conn: -1, Cmd: h("set", "n", "5")}, {Conn: -1, Cmd: h("@rewrite")}, {Conn: -1, Cmd: h("incr", "n")}}},
 	}
